@@ -67,6 +67,32 @@ def gen_discrete(rng, idx, pool):
     return c
 
 
+def own_member(spec, p):
+    """exact membership of a point in a disc / sector by the harness's own formulas (None for other kinds)"""
+    k = spec["kind"]
+    if k not in ("circle", "sector"):
+        return None
+    cx, cy, cz = spec["center"]
+    if p[2] != cz:
+        return False
+    dx, dy = p[0] - cx, p[1] - cy
+    if math.hypot(dx, dy) > spec["r"]:
+        return False
+    if k == "circle":
+        return True
+    va = math.atan2(-dx, dy) - spec["heading"]          # Scenic heading h = direction (-sin h, cos h)
+    va = (va + math.pi) % math.tau - math.pi
+    return abs(va) <= spec["angle"] / 2
+
+
+def in_ball(r, pool, cfg):
+    """per atom of A: inside the ball PointSetRegion.intersect's sampler pre-filters with (the region's `circumcircle` as observed)"""
+    if "circumcircle" not in r:
+        return [True] * len(cfg["A"])
+    ctr, rad = r["circumcircle"]
+    return [math.dist(pool[a], ctr) <= rad for a in cfg["A"]]
+
+
 def model_tree(cfg, r):
     """Coq term of the model's probability tree for a discrete configuration; None = not modelled"""
     k = cfg["kind"]
@@ -76,7 +102,8 @@ def model_tree(cfg, r):
     if k == "ps_inter_ps" and cls == "IntersectionRegion":
         return f"ps_inter_tree {nl(cfg['A'])} {nl(cfg['B'])}"
     if k in ("ps_inter_region", "region_inter_ps") and cls == "IntersectionRegion":
-        O = [a for a, m in zip(cfg["A"], r["in_region"]) if m]
+        # the code as it is: candidates = points inside the region's circumcircle ball, filtered by the region's containsPoint
+        O = [a for a, m, b in zip(cfg["A"], r["foot_region"], r["ball"]) if m and b]
         return f"ps_inter_tree {nl(cfg['A'])} {nl(O)}"
     if k == "gen_inter":
         regs = "[" + "; ".join(nl(x) for x in cfg["regs"]) + "]"
@@ -361,7 +388,13 @@ def chi2_check(c, cfg, r):
     stat = sum((k - e) ** 2 / e for e, k in big)
     dof = len(big) - 1
     thr = float(chi2.isf(1e-9, dof))
-    return dict(stat=stat, dof=dof, threshold=thr, n=n, outside=cells["outside"], ok=stat <= thr and cells["outside"] == 0)
+    # samples within the polygonisation margin of a disc / sector boundary were left out by impl_c03 (counted in near_boundary):
+    # a single boundary sample must not fail the test, but no more of them than the excluded rings can hold (3 x their share + 20)
+    near = cells.get("near_boundary", 0)
+    ntot = n + near
+    allowed = 20 + 3 * ntot * cells.get("ring_area", 0.0) / cells["area"] if cells.get("area") else 0
+    return dict(stat=stat, dof=dof, threshold=thr, n=n, outside=cells["outside"], near_boundary=near, near_allowed=allowed,
+                ok=stat <= thr and cells["outside"] == 0 and near <= allowed)
 
 
 def run_kernel(c, name, cases, evaluator="sfailing"):
@@ -392,6 +425,15 @@ def run_kernel(c, name, cases, evaluator="sfailing"):
 
 def main():
     c = Check(PID, "proof")
+    if os.environ.get("VERIF_C03_DEBUG"):           # dev aid: every violation as it is raised (the report prints one per kind)
+        _v = c.violation
+
+        def _dbg(kind, what, replay, no_input=False):
+            got = _v(kind, what, replay, no_input)
+            cfg_ = replay.get("config", {}) if isinstance(replay, dict) else {}
+            print(f"[debug] {'VIOLATION' if got else 'known'} {kind}: {what[:160]} | config {cfg_.get('id') if isinstance(cfg_, dict) else cfg_}", file=sys.stderr, flush=True)
+            return got
+        c.violation = _dbg
     c.cov["rule"] = ("discrete: random subsets of a pool of 12 points (two heights) as point sets, grids, and their compositions "
                      "(pointset x pointset / disc / rectangle / sector samplers, generic intersection of 2-3 operands, union of 2-3, "
                      "difference, difference of a union), every RNG path enumerated; a discrete case is non-trivial when the operands "
@@ -399,7 +441,7 @@ def main():
                      "polylines, polygons with holes, boxes and their generic / kernel-built compositions at non-zero heights, "
                      "non-trivial when the region is composed or rotated")
     common.ensure_parser()
-    if not c.proofs():
+    if not os.environ.get("VERIF_DEV_NOPROOFS") and not c.proofs():
         c.finish()
     quick = c.tier == "quick"
     rng = c.rng
@@ -409,8 +451,8 @@ def main():
         if p not in pool:
             pool.append(p)
     ndisc = 40 if quick else 1000
-    ncont = 30 if quick else 600
-    npts = 3000 if quick else 30000
+    ncont = 30 if quick else 480
+    npts = 3000 if quick else 25000
     dconfigs = [gen_discrete(rng, i, pool) for i in range(ndisc)]
     cconfigs = [gen_continuous(rng, 10000 + i, npts) for i in range(ncont)]
     # regions with random parameters sampled through the scenario path (own rng stream: the cases above keep their seeds)
@@ -460,6 +502,8 @@ def main():
                 unknown.append(pt)
                 continue
             dist[idx[0]] = dist.get(idx[0], Fraction(0)) + pr
+        if cfg["kind"] in ("ps_inter_region", "region_inter_ps"):
+            r["ball"] = in_ball(r, pool, cfg)
         if cfg["kind"] == "grid":
             want = set(range(len(pts)))
             tree = f"ps_tree {nl(sorted(want))}"
@@ -470,6 +514,17 @@ def main():
             set(x) != want for x in ([cfg.get("A")] + cfg.get("regs", []) if cfg.get("A") or cfg.get("regs") else []) if x)
         c.count((cfg["kind"], sorted(want or []), str(cfg.get("A")), str(cfg.get("regs")), str(cfg.get("B"))), nontrivial=nontriv)
         c.cov["traces_validated_against_impl"] += r.get("npaths", 0)
+        amb = set()
+        if cfg["kind"] in ("ps_inter_region", "region_inter_ps"):
+            if "margin" in r:
+                # discs / sectors: the composed set by the harness's own exact geometry; atoms within the polygonisation margin of the
+                # boundary are undetermined (the property speaks about points clear of the boundary)
+                amb = {a for a, d in zip(cfg["A"], r["boundary_distance"]) if d <= r["margin"] and pool[a][2] == cfg["spec"]["center"][2]}
+                own = {a for a in cfg["A"] if own_member(cfg["spec"], pool[a])}
+                if (own ^ want) - amb:
+                    c.violation("membership", f"{cfg['kind']}: the {cfg['spec']['kind']}'s containsPoint disagrees with exact geometry on a point clear of its boundary",
+                                dict(base, atoms=sorted((own ^ want) - amb), spec_kind=cfg["spec"]["kind"], margin=r["margin"]))
+                want = own
         if cfg["kind"] in ("ps_inter_region", "region_inter_ps") and want is not None and set(dist) != want:
             # PointSetRegion.intersect filters its candidates with the region's own containsPoint, which ignores the height of
             # rectangles / polygons: points over the footprint at another height are returned (when inside the 3-D circumcircle ball)
@@ -482,8 +537,16 @@ def main():
         if unknown:
             c.violation("membership", "sampler returned a point that is no point of the operands", dict(base, points=unknown[:3]))
         if want is not None:
-            extra = set(dist) - want
-            missing = want - set(dist)
+            extra = set(dist) - want - amb
+            missing = want - set(dist) - amb
+            if cfg["kind"] in ("ps_inter_region", "region_inter_ps"):
+                # members of the region that the sampler's circumcircle pre-filter throws away before containsPoint is asked
+                cut = {a for a, b in zip(cfg["A"], r["ball"]) if not b} & missing
+                if cut:
+                    c.violation("circumcircle-support", f"{cfg['kind']}: points of the point set that lie in the {cfg['spec']['kind']} (clear of its boundary) "
+                                "are never produced: they are outside the ball the sampler pre-filters its candidates with (the region's `circumcircle`)",
+                                dict(base, atoms=sorted(cut), spec_kind=cfg["spec"]["kind"], circumcircle=r.get("circumcircle"), result_class=r.get("class")))
+                    missing -= cut
             if extra:
                 c.violation("membership", f"{cfg['kind']}: sampler returns points outside the composed set",
                             dict(base, atoms=sorted(extra), result_class=r.get("class")))
@@ -491,11 +554,12 @@ def main():
                 c.violation("support", f"{cfg['kind']}: some points of the composed set are never produced",
                             dict(base, atoms=sorted(missing), result_class=r.get("class")))
             acc = sum(dist.values())
-            if want and acc > 0 and not extra and not missing:
+            if dist and acc > 0 and not extra and not missing:
+                # (the support is the composed set up to undetermined boundary atoms and reported pre-filter losses)
                 for a, pr in dist.items():
-                    if abs(float(pr / acc) - 1 / len(want)) > 1e-9:
+                    if abs(float(pr / acc) - 1 / len(dist)) > 1e-9:
                         c.violation("uniformity", f"{cfg['kind']}: not uniform on the composed set (given acceptance)",
-                                    dict(base, atom=a, prob=float(pr / acc), expected=1 / len(want), result_class=r.get("class")))
+                                    dict(base, atom=a, prob=float(pr / acc), expected=1 / len(dist), result_class=r.get("class")))
                         break
         if tree is not None:
             exp = "[" + "; ".join(f"({a}%nat, {q(p)})" for a, p in sorted(dist.items())) + "]"
@@ -557,8 +621,9 @@ def main():
         if x:
             chi.append(dict(config=cfg["id"], kinds=kinds, cls=r["class"], **{k: (round(v, 2) if isinstance(v, float) else v) for k, v in x.items()}))
             if not x["ok"]:
-                c.violation("uniformity", f"{kinds}: chi^2 uniformity test fails (statistic {x['stat']:.1f} > {x['threshold']:.1f}, dof {x['dof']}, "
-                            f"{x['outside']} samples outside the region's bounding cells)", dict(base, result_class=r["class"], chi2=x))
+                c.violation("uniformity", f"{kinds}: chi^2 uniformity test fails (statistic {x['stat']:.1f} vs threshold {x['threshold']:.1f}, dof {x['dof']}, "
+                            f"{x['outside']} samples clear of every boundary yet outside the region's cells, {x['near_boundary']} within the polygonisation "
+                            f"margin of a disc / sector boundary (allowed {x['near_allowed']:.0f}))", dict(base, result_class=r["class"], chi2=x))
     # ---- placement: MeshRegion.mesh / sampleGiven vs the model C03.Placement.place (vertices of the placed mesh)
     pcfgs = [cfg for cfg in cconfigs if cfg["kind"] == "scen" and cfg["family"] == "mesh" and cfg["region"]["shape"] != "sphere"][:12 if quick else 60]
     if pcfgs:
